@@ -30,11 +30,13 @@ Blob(W, P) == Header(W) \o Wrapped(W) \o NonceC \o Ct(P)
 
 HV(cell) == IF cell[1] = "h" THEN cell[2] ELSE 999     \* a non-header cell never sits in the first 4 positions
 
-\* provider behaviour on decrypt_dek: "ok" | "err" | "wrongkey" | "wronglen"
+\* provider behaviour on decrypt_dek: "ok" | "err" | "wrongkey" | "wronglen" (an unrelated key of another length) |
+\* "longkey" (the right key followed by extra bytes) | "shortkey" (a proper prefix of the right key): a key of the wrong
+\* length is a different key, whatever its bytes
 Unwrap(cells, W, auth, fault) ==
     IF fault = "err" THEN Err
     ELSE IF fault = "wrongkey" THEN "DEKx"
-    ELSE IF fault = "wronglen" THEN "DEKshort"
+    ELSE IF fault \in {"wronglen", "longkey", "shortkey"} THEN "DEKshort"
     ELSE IF cells = Wrapped(W) THEN "DEK"
     ELSE IF auth THEN Err ELSE "DEKx"          \* authenticated wrap refuses; plain wrap yields another key
 
